@@ -22,6 +22,8 @@ import (
 	ebu "github.com/jilio/ebu"
 	"github.com/jilio/ebu/state"
 
+	"verif/harness/internal/conc"
+	"verif/harness/internal/evt"
 	"verif/harness/internal/stores"
 	"verif/harness/internal/vk"
 	"verif/harness/internal/watchdog"
@@ -309,6 +311,37 @@ func TestC03Mix(t *testing.T) {
 		run.Count("goroutines_started", int64(G))
 		if i == 0 {
 			run.Sample(map[string]any{"store": kind, "goroutines": G, "ops_each": N, "op_counts": total})
+		}
+	}
+}
+
+// TestC03RegistryStress: the registry / publish stress histories of C02 in recorder-free mode — no
+// stamps, no harness synchronisation inside callbacks, so that the monitor cannot hide a race
+// between Subscribe / Unsubscribe / Clear / Publish / HandlerCount from the race detector.
+func TestC03RegistryStress(t *testing.T) {
+	run := vk.New("C03", "registry-stress")
+	defer run.Finish()
+	all := evt.Drivers()
+	n := run.Scale(1200, 30000)
+	procs := []int{2, 4, 16, 1}
+	defer runtime.GOMAXPROCS(runtime.GOMAXPROCS(0))
+	for i := 0; i < n; i++ {
+		rng := run.Rand(uint64(i))
+		runtime.GOMAXPROCS(procs[i%len(procs)])
+		w, plans, _ := conc.StressHistory(rng, all, false)
+		w.Bus.Wait()
+		kinds := map[string]bool{}
+		ops := 0
+		for _, p := range plans {
+			for _, o := range p {
+				kinds[o.K] = true
+				ops++
+			}
+		}
+		run.Case(fmt.Sprintf("G%d kinds%d p%d", len(plans), len(kinds), procs[i%len(procs)]), len(plans) >= 2 && (kinds["sub"] || kinds["unsub"] || kinds["clear"]) && kinds["pub"])
+		run.Count("operations", int64(ops))
+		if i == 0 {
+			run.Sample(map[string]any{"plans": plans})
 		}
 	}
 }
